@@ -167,6 +167,12 @@ package btccurve
 // /verif/contracts/deps/secp256k1_group.spec on top of their proved field contracts); pre(k, i) is the number
 // formed by the first i bytes.
 //@ rec pre(k []byte, i int) mathint = ite(i <= 0, 0, pre(k, i-1)*256 + mathint(k[i-1]))
+// the arithmetic of one bit step: with m the value of the bits consumed so far (P: the earlier bytes, kb: the
+// current byte, b of its bits consumed) the next value is 2m + the next bit, which is the top bit of the shifted byte
+//@ lemma bitstep(P mathint, kb mathint, b int)
+//@   requires 0 <= b && b < 8 && 0 <= kb && kb < 256 && P >= 0
+//@   ensures  P*p2(b+1) + kb/p2(7-b) == 2*(P*p2(b) + kb/p2(8-b)) + (((kb*p2(b)) % 256)/128) % 2
+//@   ensures  P*p2(b) + kb/p2(8-b) >= 0 && (kb*p2(b+1)) % 256 == (2*((kb*p2(b)) % 256)) % 256
 //@ spec jaff(x mathint, y mathint) mathint = jp(x, y, ite(x == 0 && y == 0, 0, 1))
 //@ func (curve koblitzCurve) ScalarMult(Bx *big.Int, By *big.Int, k []byte) (xr *big.Int, yr *big.Int)
 //@   variant group
@@ -181,6 +187,7 @@ package btccurve
 //@   loop 1.1 invariant 0 <= bitNum && bitNum <= 8 && x != nil && y != nil && z != nil && pre(k, _i1) >= 0
 //@   loop 1.1 invariant *Bx == old(*Bx) && *By == old(*By) && *Bz == ite(*Bx == 0 && *By == 0, 0, 1)
 //@   loop 1.1 invariant mathint(byte) == (mathint(k[_i1])*p2(bitNum)) % 256
+//@   loop 1.1 use bitstep(pre(k, _i1), mathint(k[_i1]), bitNum)
 //@   loop 1.1 invariant implies(!seenFirstTrue, pre(k, _i1) == 0 && mathint(k[_i1])/p2(8-bitNum) == 0 && *x == *Bx && *y == *By && *z == *Bz)
 //@   loop 1.1 invariant implies(seenFirstTrue, jp(*x, *y, *z) == gmul(pre(k, _i1)*p2(bitNum) + mathint(k[_i1])/p2(8-bitNum), jaff(*Bx, *By)))
 
